@@ -116,14 +116,16 @@ def validate_args(func):
                 bound.arguments[pname] = _validate(
                     sig.parameters[pname].annotation, value, pname)
             except xlerrors.ExcelError as err:
-                return err
+                return err.with_traceback(None)
         # 2. Run the function to compute the result.
         try:
             res = func(*bound.args, **bound.kwargs)
         except xlerrors.ExcelError as err:
             # Never crash on Excel errors as we want to store them as the cell
-            # value.
-            return err
+            # value. From here on the error is a value: without its traceback
+            # it does not keep the frames of this evaluation (and, through
+            # them, itself) alive.
+            return err.with_traceback(None)
         # 3. Convert the result to an Excel type. A function may also
         #    return (rather than raise) an error, which is handed on as is.
         if isinstance(res, xlerrors.ExcelError):
